@@ -57,6 +57,9 @@ type G struct {
 	MaxDepth int
 	// Awkward raises the share of nulls, empty names and odd spellings.
 	Awkward bool
+	// EnsureFlavour: the next Patch is written for a caller that sets EnsurePathExistsOnAdd
+	// (adds beyond the end of arrays and below missing parents, then operations on what that created).
+	EnsureFlavour bool
 	// NoHuge suppresses the rare depth-2000+ documents (concurrent engine: each
 	// scenario is executed many times, also under the race detector).
 	NoHuge bool
@@ -295,10 +298,52 @@ func child(v *jr.Value, tok string) *jr.Value {
 	return nil
 }
 
+// modelEnsure mirrors EnsurePathExistsOnAdd in the generator's model (so that later operations
+// of the same patch can point into padded slots and created containers): missing parents are
+// created (an array when the next token is numeric or "-"), arrays are padded with nulls.
+var modelEnsure bool
+
+func ensureParents(root *jr.Value, ptr string) {
+	parts := strings.Split(ptr[1:], "/")
+	cur := root
+	for i, p := range parts[:len(parts)-1] {
+		tok := unescapeToken(p)
+		next := child(cur, tok)
+		if next == nil {
+			nt := unescapeToken(parts[i+1])
+			nv := &jr.Value{K: jr.Obj}
+			if _, err := strconv.Atoi(nt); err == nil || nt == "-" {
+				nv = &jr.Value{K: jr.Arr, Arr: []*jr.Value{}}
+			}
+			switch cur.K {
+			case jr.Obj:
+				cur.Keys = append(cur.Keys, tok)
+				cur.Vals = append(cur.Vals, nv)
+			case jr.Arr:
+				idx, err := strconv.Atoi(tok)
+				if err != nil || idx < 0 || idx > len(cur.Arr)+40 {
+					return
+				}
+				for len(cur.Arr) < idx {
+					cur.Arr = append(cur.Arr, &jr.Value{K: jr.Null})
+				}
+				cur.Arr = append(cur.Arr, nv)
+			default:
+				return
+			}
+			next = nv
+		}
+		cur = next
+	}
+}
+
 func modelAdd(root **jr.Value, ptr string, val *jr.Value) bool {
 	if ptr == "" {
 		*root = val
 		return true
+	}
+	if modelEnsure && strings.HasPrefix(ptr, "/") && *root != nil {
+		ensureParents(*root, ptr)
 	}
 	par, tok, ok := resolve(*root, ptr)
 	if !ok {
@@ -326,6 +371,11 @@ func modelAdd(root **jr.Value, ptr string, val *jr.Value) bool {
 		}
 		if i < 0 {
 			i += len(par.Arr) + 1
+		}
+		if modelEnsure && i > len(par.Arr) && i <= len(par.Arr)+40 {
+			for len(par.Arr) < i {
+				par.Arr = append(par.Arr, &jr.Value{K: jr.Null})
+			}
 		}
 		if i < 0 || i > len(par.Arr) {
 			return false
@@ -433,7 +483,11 @@ func (g *G) pointerFor(cur *jr.Value, forAdd bool) string {
 		ptrs = ptrs[:400]
 	}
 	base := ptrs[g.R.Intn(len(ptrs))]
-	if g.R.P(650) && base != "" {
+	exact := 650
+	if modelEnsure && forAdd {
+		exact = 250
+	}
+	if g.R.P(exact) && base != "" {
 		return base
 	}
 	// near misses built from a container pointer
@@ -449,7 +503,7 @@ func (g *G) pointerFor(cur *jr.Value, forAdd bool) string {
 	case jr.Obj:
 		names := append([]string{"zz", "new", "", "a~1b", "m~0n", "~", "0", "-"}, memberNames[:6]...)
 		p := base + "/" + jr.EscapeToken(g.R.Pick(names))
-		if forAdd && g.R.P(200) {
+		if forAdd && g.R.P(map[bool]int{false: 200, true: 600}[modelEnsure]) {
 			p += "/" + g.R.Pick([]string{"x", "0", "-", "y/z", "2/q"})
 		}
 		return p
@@ -503,6 +557,8 @@ func (g *G) Patch(doc string, nops int) string {
 	}
 	cur = clone(cur)
 	n := g.R.Intn(nops + 1)
+	modelEnsure = g.EnsureFlavour || g.R.P(150) // this patch is written for a caller that sets EnsurePathExistsOnAdd
+	defer func() { modelEnsure = false }()
 	var ops []string
 	for i := 0; i < n; i++ {
 		if g.R.P(25) {
@@ -514,7 +570,24 @@ func (g *G) Patch(doc string, nops int) string {
 		case 0, 1, 2:
 			op = Op{Kind: "add", Path: g.pointerFor(cur, true), Value: g.opValue(), HasValue: true}
 			if v, err := jr.Parse([]byte(op.Value)); err == nil {
+				before := len(jr.Pointers(cur))
 				modelAdd(&cur, op.Path, v)
+				if modelEnsure && g.R.P(400) {
+					// an operation on something the padding created (the newest null, if any)
+					ptrs := jr.Pointers(cur)
+					if len(ptrs) > before+1 {
+						for k := len(ptrs) - 1; k >= 0; k-- {
+							if n := modelGet(cur, ptrs[k]); n != nil && n.K == jr.Null {
+								ops = append(ops, op.Render(g))
+								op = Op{Kind: "test", Path: ptrs[k], HasValue: true, Value: g.R.Pick([]string{`{"id":1}`, `[1]`, `null`, `{}`, `[]`, `0`, `[null]`})}
+								if g.R.P(300) {
+									op = Op{Kind: "copy", From: ptrs[k], Path: op.Path + "x", HasFrom: true}
+								}
+								break
+							}
+						}
+					}
+				}
 			}
 		case 3, 4:
 			op = Op{Kind: "remove", Path: g.pointerFor(cur, false)}
